@@ -141,6 +141,11 @@ class HistArith(Hist):
             chosen = rng.sample(labels, need)
         if any(pre.gates[x][0] != 'INPUT' for x in chosen):
             self.res.stats.probes.bump('gadget-operands-include-internal-gates')
+        if need == len(pre.inputs) and need > 0 and rng.random() < 0.35:
+            # the caller hands over the circuit's own (live) input list, as generate_* front ends do
+            chosen = host.real.inputs
+            self.res.stats.probes.bump('gadget-operands-are-the-live-input-list')
+        operands_snapshot = list(chosen)
         call, desc = spec['bind'](host.real, chosen)
         self.ev['call'] = f'#{host.sid}.{desc}'
         self.ev['valid'] = True
@@ -168,6 +173,9 @@ class HistArith(Hist):
         # frame: inputs as a set, pre-existing gates keep their function
         if sorted(now.inputs) != sorted(pre.inputs):
             self.violate(g.prop, 'frame', f'{g.name}:inputs', f'inputs {now.inputs} vs {pre.inputs}')
+        elif now.inputs != pre.inputs and g.name != 'add_plus_one':
+            # (add_plus_one documents that it moves its operand inputs to the front)
+            self.violate(g.prop, 'frame', f'{g.name}:input-order', f'input order changed: {now.inputs} vs {pre.inputs}')
         try:
             now_val = now.lanes({x: assign[x] for x in pre.inputs if x in now.gates}, mask)
         except ModelError as e:
@@ -187,7 +195,7 @@ class HistArith(Hist):
         if missing:
             self.violate(g.prop, 'value', f'{g.name}:result-label-missing', f'returned labels {missing[:3]} are not gates of the host')
         else:
-            in_groups = spec['operands'](chosen)
+            in_groups = spec['operands'](operands_snapshot)
             self.judge_value(g, spec, [[pre_val[x] for x in grp] for grp in in_groups],
                              [[now_val[x] for x in grp] for grp in res_groups], L, mask)
         self.judge_extra(g, spec, pre, now, flat)
@@ -294,7 +302,7 @@ def build_specs(eng):
         big = rng.random() < 0.4
 
         def bind(host, chosen):
-            return (lambda: A.add_sum_n_bits(host, list(chosen), basis=barg, big_endian=big)), \
+            return (lambda: A.add_sum_n_bits(host, chosen, basis=barg, big_endian=big)), \
                 f'add_sum_n_bits({chosen}, basis={barg!r}, big_endian={big})'
 
         def check(ins, outs, L):
@@ -312,7 +320,7 @@ def build_specs(eng):
         big = rng.random() < 0.4
 
         def bind(host, chosen):
-            return (lambda: A.add_sum_n_bits_easy(host, list(chosen), big_endian=big)), f'add_sum_n_bits_easy({chosen}, big_endian={big})'
+            return (lambda: A.add_sum_n_bits_easy(host, chosen, big_endian=big)), f'add_sum_n_bits_easy({chosen}, big_endian={big})'
 
         def check(ins, outs, L):
             for j in range(L):
@@ -373,7 +381,7 @@ def build_specs(eng):
         box = {}
 
         def bind(host, chosen):
-            return (lambda: A.add_sum_pow2_m1(host, list(chosen), big_endian=big, basis=barg)), \
+            return (lambda: A.add_sum_pow2_m1(host, chosen, big_endian=big, basis=barg)), \
                 f'add_sum_pow2_m1({chosen}, big_endian={big}, basis={barg!r})'
 
         def results(rv):
@@ -559,7 +567,7 @@ def build_specs(eng):
             box = {}
 
             def bind(host, chosen):
-                return (lambda: fn(host, list(chosen), big_endian=big)), f'{name}({chosen},big_endian={big})'
+                return (lambda: fn(host, chosen, big_endian=big)), f'{name}({chosen},big_endian={big})'
 
             def results(rv):
                 box['len'] = len(rv)
@@ -705,7 +713,7 @@ def build_specs(eng):
         box = {}
 
         def bind(host, chosen):
-            return (lambda: A.add_sqrt(host, list(chosen), big_endian=big)), f'add_sqrt({chosen},big_endian={big})'
+            return (lambda: A.add_sqrt(host, chosen, big_endian=big)), f'add_sqrt({chosen},big_endian={big})'
 
         def results(rv):
             box['len'] = len(rv)
@@ -727,7 +735,7 @@ def build_specs(eng):
         num = weighted_choice(rng, [(rng.randrange(1 << n), 6), (0, 1), ((1 << n) - 1, 1), (1 << n, 1), ((1 << n) + rng.randint(1, 9), 1)])
 
         def bind(host, chosen):
-            return (lambda: A.add_equal(host, list(chosen), num)), f'add_equal({chosen},{num})'
+            return (lambda: A.add_equal(host, chosen, num)), f'add_equal({chosen},{num})'
 
         def check(ins, outs, L):
             for j in range(L):
@@ -756,7 +764,7 @@ def build_specs(eng):
                 kw['add_outputs'] = add_outputs
             if big or rng.random() < 0.3:
                 kw['big_endian'] = big
-            return (lambda: GEN.add_plus_one(host, list(chosen), **kw)), f'add_plus_one({chosen},{kw})'
+            return (lambda: GEN.add_plus_one(host, chosen, **kw)), f'add_plus_one({chosen},{kw})'
 
         def results(rv):
             box['labels'] = list(rv)
